@@ -32,6 +32,8 @@ func checkC05(p *Prog, r *Report) {
 	ruleINV(p, r, reach)
 	ruleNOGO(p, r, entries, reach)
 	rulePoolUAR(p, r, "C05")
+	rulePoolOwn(p, r)
+	r.Floor("POOL-OWN", 6)
 	r.Floor("INV", 100)
 	r.Floor("LOCK", 1)
 	r.Floor("NOGO", len(entries))
